@@ -63,19 +63,31 @@ type Ctx struct {
 	ginitCache    map[*ssa.Global]*ssa.Function
 	identMemo     map[*ssa.Function]int
 	inlineHelpers bool
-	ftMemo        map[*types.Named][]*ssa.Function
-	faMemo        map[*ssa.Parameter][]*ssa.Function
-	extraCut      map[edge]bool          // edges excluded for the current top-level guard query (a case split on a φ)
-	mutGlobals    map[*ssa.Global]string // statelessRule: module globals that change after initialisation, with the reason
-	condDepth     int
-	fnArgs        map[string]fnArg            // calleeEnvV: functions handed to callees as arguments, by the name they carry in the callee env
-	condEnv       Env                         // canonCond: the frame conditions are rendered in (nil: the function's own)
-	fnSubst       map[ssa.Value]*ssa.Function // guardViaTable: function-valued fields of the current table element
-	gsMemo        map[*ssa.Global]*ssa.Slice
-	boolOrigins   map[string]boolOrigin          // calleeEnvV: test results handed to callees as boolean arguments, by path
-	nameHandedOn  bool                           // calleeEnvV: a call result the callee hands on is named after the caller-side call value
-	phiEdgeLive   func(phi *ssa.Phi, i int) bool // optional: restricts φ edges when rendering canonical forms
-	gmemo         map[string]int
+	aliasMemo     map[*ssa.Global]*ssa.Global
+	// names for the parameters of the function a thin wrapper forwards to (read in the wrapper's frame)
+	baseEnv Env
+	// while a helper is looked into: the caller's values its parameters stand for
+	argOf map[*ssa.Parameter]ssa.Value
+	// a boolean configuration field (path suffix) assumed true / false while pruning branches
+	assumeSuffix string
+	assumeValue  bool
+	// parameters of unexported functions whose signature differs from the reference tree's: their reference names
+	paramRef map[*ssa.Function]map[*ssa.Parameter]string
+	// helpers through which an anchor call was found (call-tree search): their results read as what they return
+	inlineFns    map[*ssa.Function]bool
+	ftMemo       map[*types.Named][]*ssa.Function
+	faMemo       map[*ssa.Parameter][]*ssa.Function
+	extraCut     map[edge]bool          // edges excluded for the current top-level guard query (a case split on a φ)
+	mutGlobals   map[*ssa.Global]string // statelessRule: module globals that change after initialisation, with the reason
+	condDepth    int
+	fnArgs       map[string]fnArg            // calleeEnvV: functions handed to callees as arguments, by the name they carry in the callee env
+	condEnv      Env                         // canonCond: the frame conditions are rendered in (nil: the function's own)
+	fnSubst      map[ssa.Value]*ssa.Function // guardViaTable: function-valued fields of the current table element
+	gsMemo       map[*ssa.Global]*ssa.Slice
+	boolOrigins  map[string]boolOrigin          // calleeEnvV: test results handed to callees as boolean arguments, by path
+	nameHandedOn bool                           // calleeEnvV: a call result the callee hands on is named after the caller-side call value
+	phiEdgeLive  func(phi *ssa.Phi, i int) bool // optional: restricts φ edges when rendering canonical forms
+	gmemo        map[string]int
 }
 
 func isMockPath(p string) bool {
@@ -816,4 +828,138 @@ func (c *Ctx) Finish(explanation string) int {
 		return 1
 	}
 	return 0
+}
+
+// paramRefName: an unexported module function whose signature is not the one recorded on the reference tree (a
+// parameter added, dropped or moved): a parameter whose type identifies it keeps its reference position; a parameter
+// the reference signature does not have reads as what the function's only caller hands in.
+func (c *Ctx) paramRefName(p *ssa.Parameter) (string, bool) {
+	f := p.Parent()
+	if f == nil {
+		return "", false
+	}
+	m, done := c.paramRef[f]
+	if !done {
+		if c.paramRef == nil {
+			c.paramRef = map[*ssa.Function]map[*ssa.Parameter]string{}
+		}
+		c.paramRef[f] = nil // (a recursive rendering falls back to positions)
+		m = c.computeParamRef(f)
+		c.paramRef[f] = m
+	}
+	s, ok := m[p]
+	return s, ok
+}
+
+func (c *Ctx) computeParamRef(f *ssa.Function) map[*ssa.Parameter]string {
+	key := sigKey(f)
+	if key == "" {
+		return nil
+	}
+	if old, renamed := funcAlias[f]; renamed {
+		key = key[:strings.LastIndex(key, ".")+1] + old
+	}
+	want, ok := anchorSigs[key]
+	if !ok || sigOf(f) == want {
+		return nil
+	}
+	ref := sigParamTypes(want)
+	off := 0
+	if f.Signature.Recv() != nil {
+		off = 1
+	}
+	cur := make([]string, 0, len(f.Params))
+	for _, p := range f.Params[off:] {
+		cur = append(cur, unexportedTypeRe.ReplaceAllString(types.TypeString(p.Type(), func(p *types.Package) string { return p.Path() }), "$1·"))
+	}
+	count := func(xs []string, t string) (n, at int) {
+		for i, x := range xs {
+			if x == t {
+				n++
+				at = i
+			}
+		}
+		return
+	}
+	out := map[*ssa.Parameter]string{}
+	for j, p := range f.Params[off:] {
+		nr, at := count(ref, cur[j])
+		nc, _ := count(cur, cur[j])
+		if nr == 1 && nc == 1 {
+			out[p] = fmt.Sprintf("$%d", at+off)
+			continue
+		}
+		if nr > 0 {
+			continue // ambiguous: positions as they are
+		}
+		// a parameter the reference signature does not have: the argument of the only call
+		var calls []*ssa.Call
+		for _, h := range c.Funcs {
+			for _, cl := range callsTo(h, f) {
+				calls = append(calls, cl)
+			}
+		}
+		if len(calls) == 1 {
+			if a := declArgs(calls[0]); j < len(a) {
+				out[p] = c.path(a[j], nil, 4)
+			}
+		}
+	}
+	return out
+}
+
+// sigParamTypes: the parameter types of a signature rendered by sigOf ("func(a T, b ...U) R").
+func sigParamTypes(sig string) []string {
+	if !strings.HasPrefix(sig, "func(") {
+		return nil
+	}
+	depth, end := 0, -1
+	for i := 4; i < len(sig); i++ {
+		switch sig[i] {
+		case '(', '[', '{':
+			depth++
+		case ')', ']', '}':
+			depth--
+			if depth == 0 && end < 0 {
+				end = i
+			}
+		}
+		if end >= 0 {
+			break
+		}
+	}
+	if end < 0 {
+		return nil
+	}
+	var out []string
+	depth = 0
+	start := 5
+	flush := func(s string) {
+		s = strings.TrimSpace(s)
+		if s == "" {
+			return
+		}
+		if i := strings.Index(s, " "); i >= 0 && !strings.HasPrefix(s, "func(") && !strings.HasPrefix(s, "map[") && !strings.HasPrefix(s, "[]") && !strings.HasPrefix(s, "*") {
+			s = s[i+1:]
+		}
+		if strings.HasPrefix(s, "...") {
+			s = "[]" + s[3:]
+		}
+		out = append(out, s)
+	}
+	for i := 5; i < end; i++ {
+		switch sig[i] {
+		case '(', '[', '{':
+			depth++
+		case ')', ']', '}':
+			depth--
+		case ',':
+			if depth == 0 {
+				flush(sig[start:i])
+				start = i + 1
+			}
+		}
+	}
+	flush(sig[start:end])
+	return out
 }
